@@ -6,6 +6,7 @@ model `Exetera.IndexedWriter.writeField / getSlice / getAll / getItem` and `Exet
 readDtype / reopenClass`.
 Oracle for the property itself (check_spec): the written sequence — Python rendering of Spec/Storage.lean."""
 import itertools
+import os
 
 PROPERTY = "C01"
 LEVEL = "proof"
@@ -18,16 +19,23 @@ LEANCHECKER = True
 RULE = ("indexed strings — exhaustive: every sequence over the alphabet {'', 'a', 'é' (2 bytes), 'xyz'} of length <= n "
         "(quick n=3, thorough n=5) x every composition of it into write_part calls (plus variants with empty parts "
         "inserted, and the single write() call) x chunk sizes 1,2,3,4,5,1<<20 x {memory, HDF5-in-BytesIO}; every case is "
-        "read through data[:], every data[a:b] with 0<=a<=b<=n (+ out-of-range ones), every data[i], indices[:], values[:], "
-        "len(), with the writeable and the read-only reader, and again after close() + open_dataset(...,'r') on the same "
-        "bytes; plus seeded random sequences (quick <=60, thorough <=2000 entries) with 1-4 byte UTF-8 characters and entry "
+        "read through data[:], every data[a:b] with 0<=a<=b<=n (+ out-of-range ones), every data[i], ~20 items with negative "
+        "indices, None / negative / out-of-range bounds, steps 2,3,-1,-2 and 0, empty results (+ random ones; each int also as "
+        "np.int64), indices[:], values[:], len(), with the writeable and the read-only reader, and again after close() + "
+        "open_dataset(...,'r') on the same bytes; readers exhaustive: fields of 0..4 (thorough 6) rows of every kind x both "
+        "backings read with EVERY slice whose start, stop are None or in [-n-2, n+2] and step in {None,1,2,3,-1,-2,-3,0} and "
+        "every int in [-n-2, n+1]; the Lean spec of Python indexing (Spec/PySlice.lean) against Python's own list indexing on "
+        "the same exhaustive scope plus random bounds up to +-2^63; plus seeded random sequences (quick <=60, thorough <=2000 entries) with 1-4 byte UTF-8 characters and entry "
         "lengths c-1,c,c+1 around the chunk size, random partitions with empty parts; histories of 2-4 write_part...complete "
         "rounds on one field with the same writer object, a new one, or after close + reopen 'r+'. Plain fields — numeric x "
         "{bool,int8..int64,uint8..uint64,float32,float64}, fixed strings, categorical (key stored and read back), "
         "timestamp: every composition of sequences of extreme values up to length 3 (thorough 4) x both backends, plus random. "
         "Non-trivial = a staging-buffer flush happened inside write_part (bytes or entries >= chunk size) or the partition "
         "has >= 2 parts or an empty part; distinct = distinct canonical case.")
-ASSUMPTIONS = ["h5py/HDF5 store and return arrays, attributes and variable-length strings faithfully, also across close/reopen "
+ASSUMPTIONS = ["Python's slice.indices / range / list indexing are as rendered in Spec/PySlice.lean (compared with Python itself on every "
+               "run, op c01_pyslice); numpy's and h5py's __getitem__ on a one-dimensional array follow them for every item they "
+               "accept (compared on every plain-field case)",
+               "h5py/HDF5 store and return arrays, attributes and variable-length strings faithfully, also across close/reopen "
                "(exercised by every HDF5 case, not proved)",
                "Python's UTF-8 codec: s.encode() / bytes.decode() are inverse on valid strings (entries are modelled as their bytes)",
                "numpy casting of ill-typed input is not modelled: parts are written with the field's own dtype",
@@ -36,17 +44,23 @@ ASSUMPTIONS = ["h5py/HDF5 store and return arrays, attributes and variable-lengt
                "hand-written Lean model validated by this differential run, not verified against the Python text"]
 TRUSTED = ["Lean 4.33 kernel", "axioms: propext, Classical.choice, Quot.sound only (audited per theorem)",
            "checks/harness/c01.py generators, canonicalisation and comparison",
-           "Lean models Exetera/Model/IndexedWriter.lean and Exetera/Model/Storage.lean mirror fields.py / data_writer.py by hand"]
+           "Lean models Exetera/Model/IndexedWriter.lean, Exetera/Model/Storage.lean and Exetera/Model/Reader.lean mirror "
+           "fields.py / data_writer.py by hand"]
 LEVEL_TEXT = ("Kernel-checked for all inputs: the indexed-string writer (write_part/complete with its two staging buffers, "
               "any chunk size >= 1, any partition, memory or HDF5 append) stores exactly the concatenated bytes and the "
               "running offsets, without an out-of-bounds buffer access; partition, chunk-size and backend independence; the "
-              "offsets invariants; both indexed readers return xs[a:b] / xs[i] for every 0<=a<=b<=n / i<n; plain fields "
-              "store the concatenation of their parts; categorical key values, the dtype of an empty read and the reopen "
-              "class dispatch. Model tied to the code by differential execution incl. close/reopen.")
-LEVEL_NOTE = ("Theorems are about the model with the four fix: patches applied (D1, D2, D32, NC01a; as-found variants kept "
-              "with Witness theorems). HDF5 persistence, the UTF-8 codec and numpy casting are assumptions, exercised but "
-              "not proved. Reader theorems cover the in-range slices/indices the property names; steps and negative indices "
-              "are outside the model.")
+              "offsets invariants; both indexed readers return xs[a:b] / xs[i] for every 0<=a<=b<=n / i<n, and — against a Lean "
+              "rendering of Python's slice.indices / range / list indexing — exactly xs[start:stop:step] for EVERY combination of "
+              "None, negative, out-of-range bounds and steps of either sign (ValueError for step 0) and xs[i] for every "
+              "-n<=i<n; plain fields store the concatenation of their parts and answer every item as numpy does on either "
+              "backing; categorical key values, the dtype of an empty read and the reopen class dispatch. Model tied to the "
+              "code by differential execution incl. close/reopen.")
+LEVEL_NOTE = ("Theorems are about the model with the six fix: patches applied (D1, D2, D32, NC01a, NC01b, NC01c; as-found variants "
+              "kept with Witness theorems and _partial theorems: the indexed readers as found are right only for non-negative, "
+              "ordered, unit-step slices and non-negative ints, an h5py dataset refuses negative steps). HDF5 persistence, the "
+              "UTF-8 codec, numpy casting and numpy's / h5py's own indexing of a plain array are assumptions, exercised but not "
+              "proved. Out of range ints raise ValueError (a list raises IndexError); a never-written memory array answers "
+              "every item, ints included, with an empty array; items other than int / numpy integer / slice are not modelled.")
 TECHNIQUE = ("Lean 4 theorems (invariant over bytes, entries, parts) about an executable model of the field arrays + "
              "differential correspondence with the real classes on exhaustive small partitions x chunk sizes x backends and "
              "seeded random cases, including reopen")
@@ -89,6 +103,37 @@ def with_empty_parts(parts):
     return outs
 
 
+def general_reads(n, rng=None):
+    """items outside the non-negative unit-step shape: negative indices, None / negative / out-of-range bounds, steps"""
+    slices = [[None, -1], [-1, None], [-2, None], [None, None, 2], [None, None, -1], [1, None, 2], [None, None, -2],
+              [-1, 0, -1], [n - 1, None, -1], [None, -n - 1], [n, 0, -1], [-n, None], [2, 1], [-n - 2, 2], [1, -1],
+              [None, None, 0], [0, n, 1], [-1, -n - 1, -1], [None, None, 3]]
+    items = [-1, -n, -n - 1]
+    if rng and n:
+        for _ in range(2):
+            slices.append([rng.choice([None, rng.randrange(-n - 2, n + 3)]), rng.choice([None, rng.randrange(-n - 2, n + 3)]),
+                           rng.choice([None, 1, 2, 3, -1, -2, -3, rng.randrange(1, n + 2), -rng.randrange(1, n + 2)])])
+        items += [-rng.randrange(1, n + 1)]
+    out = []
+    for sl in slices:
+        if sl not in out:
+            out.append(sl)
+    # a rotating window of the fixed shapes per case (every shape is read on every field of the exhaustive reader cases)
+    _ROT[0] += 1
+    k = _ROT[0]
+    fixed = [out[(k * 3 + j) % 19] for j in range(3)] if len(out) >= 19 else out
+    return [x for i, x in enumerate(out) if x in fixed or i >= 19], sorted(set([items[k % 3]] + items[3:]))
+
+
+_ROT = [0]
+
+
+def all_reads(n, steps=(None, 1, 2, 3, -1, -2, -3, 0)):
+    """every slice with start, stop in {None} + [-n-2, n+2] and the given steps; every int in [-n-2, n+1]"""
+    bounds = [None] + list(range(-n - 2, n + 3))
+    return [[a, b, st] for a in bounds for b in bounds for st in steps], list(range(-n - 2, n + 2))
+
+
 def reads_for(n, rng=None, extra_oob=True):
     if n <= 6:
         slices = [[a, b] for a in range(n + 1) for b in range(a, n + 1)]
@@ -100,10 +145,11 @@ def reads_for(n, rng=None, extra_oob=True):
     if extra_oob:   # outside the property's quantifier: compared with the model only
         slices += [[0, n + 1], [n, n + 2], [n + 1, n + 1], [n + 2, n + 3]]
         items += [n, n + 1]
-    return slices, items
+    gs, gi = general_reads(n, rng)
+    return slices + [x for x in gs if x not in slices], items + [i for i in gi if i not in items]
 
 
-def mk_indexed(c, h5, parts, rng=None, write=False, tag=None, rounds=None, rewrap=False):
+def mk_indexed(c, h5, parts, rng=None, write=False, tag=None, rounds=None, rewrap=False, reads=None):
     """parts: one write_part call each, then complete(). rounds (optional): a history of several such rounds; then
     `parts` is their concatenation (what the field must hold) and `rewrap` says how the writer object is obtained for
     every round after the first: False = the same object, True = a new WriteableIndexedFieldArray / field.writeable(),
@@ -111,8 +157,10 @@ def mk_indexed(c, h5, parts, rng=None, write=False, tag=None, rounds=None, rewra
     if rounds is not None:
         parts = [p for r in rounds for p in r]
     n = sum(len(p) for p in parts)
-    slices, items = reads_for(n, rng)
+    slices, items = reads if reads else reads_for(n, rng)
     case = {"op": "c01_indexed", "c": c, "h5": h5, "parts": parts, "slices": slices, "items": items}
+    if reads or (_ROT[0] % 4 == 0):
+        case["np_items"] = True          # the int items are read a second time as numpy integers
     if rounds is not None:
         case["rounds"] = rounds
         case["rewrap"] = rewrap
@@ -123,9 +171,9 @@ def mk_indexed(c, h5, parts, rng=None, write=False, tag=None, rounds=None, rewra
     return case
 
 
-def mk_plain(kind, dtype, h5, parts, rng=None, strlen=0, key=None, write=False, tag=None):
+def mk_plain(kind, dtype, h5, parts, rng=None, strlen=0, key=None, write=False, tag=None, reads=None):
     n = sum(len(p) for p in parts)
-    slices, items = reads_for(n, rng)
+    slices, items = reads if reads else reads_for(n, rng)
     case = {"op": "c01_plain", "kind": kind, "dtype": dtype, "h5": h5, "parts": parts, "slices": slices, "items": items,
             "strlen": strlen}
     if kind == "fixed":
@@ -179,6 +227,35 @@ def gen_cases(tier, rng):
     from checks import corpus
     cases = list(corpus.load("C01"))
     quick = tier == "quick"
+    _ROT[0] = 0
+    # ---- readers: every int / slice item (None, negative, out-of-range bounds, steps of either sign, step 0) on small
+    #      fields of every kind and both backings; and the Lean SPEC of Python indexing against Python itself -------
+    rmax = 4 if quick else 6
+    rseq = ["a", "", "é", "xyz", "bc", "d"]
+    rkinds = [("numeric", "int32", 0), ("numeric", "float64", 0), ("numeric", "bool", 0), ("numeric", "uint64", 0),
+              ("fixed", "bytes24", 3), ("categorical", "int8", 0), ("timestamp", "float64", 0)]
+    for n in range(rmax + 1):
+        reads = all_reads(n) if (n <= 3 or not quick) else all_reads(n, steps=(None, 2, -1, -2))
+        for h5 in (False, True):
+            for c in ((2,) if h5 else (2, 50)):
+                cases.append(mk_indexed(c, h5, [rseq[:1], rseq[1:n]] if n else [], reads=reads, tag="readers"))
+            for kind, dtype, strlen in rkinds:
+                vals = extreme_values(kind, dtype, strlen)
+                seq = [vals[(2 * i + 1) % len(vals)] for i in range(n)]
+                key = key_for(dtype, seq) if kind == "categorical" else None
+                cases.append(mk_plain(kind, dtype, h5, [seq[:1], seq[1:]] if n else [], strlen=strlen, key=key, reads=reads,
+                                      tag="readers"))
+    for n in range(0, 6 if quick else 9):
+        sl, it = all_reads(n, steps=(None, 1, 2, 3, 4, -1, -2, -3, -4, 0))
+        cases.append({"op": "c01_pyslice", "xs": list(range(10, 10 + n)), "slices": sl, "items": it})
+    for t in range(20 if quick else 200):
+        n = rng.randrange(0, 30)
+        big = [None, 0, 1, -1, n, -n, n + 1, -n - 1, 10**12, -10**12, 2**63, -2**63 - 1]
+        pickb = lambda: rng.choice(big + [rng.randrange(-n - 3, n + 4)])   # noqa
+        sl = [[pickb(), pickb(), rng.choice([None, 1, -1, 2, -2, 7, -7, 10**12, -10**12, rng.randrange(-n - 2, n + 3)])]
+              for _ in range(60)]
+        cases.append({"op": "c01_pyslice", "xs": [rng.randrange(-5, 6) for _ in range(n)], "slices": sl,
+                      "items": [rng.randrange(-n - 3, n + 3) for _ in range(10)] + [10**12, -10**12]})
     # ---- indexed strings: exhaustive small scope ---------------------------------------------------------------
     nmax = 3 if quick else 5
     chunks = [1, 2, 3, 4, 50] if quick else [1, 2, 3, 4, 5, 50]     # 50 > every byte/entry count of this scope: no flush
@@ -346,10 +423,22 @@ def _hexs(xs):
     return [None if x is None else x.encode().hex() for x in xs]
 
 
+def _sl(x):
+    return slice(*x)
+
+
+def _hexr(r):
+    return _hexs(r) if isinstance(r, list) else (None if r is None else r.encode().hex())
+
+
 def _indexed_reads(e, data, case):
+    np = e["np"]
     return {"all": _try(e, lambda: _hexs(data[:])),
-            "slices": [_try(e, lambda a=a, b=b: _hexs(data[a:b])) for a, b in case["slices"]],
-            "items": [_try(e, lambda i=i: data[i].encode().hex()) for i in case["items"]]}
+            "slices": [_try(e, lambda x=x: _hexs(data[_sl(x)])) for x in case["slices"]],
+            "items": [_try(e, lambda i=i: _hexr(data[i])) for i in case["items"]],
+            # the same rows named by numpy integers (what `for i in np.arange(n)` hands over)
+            "items_np": [_try(e, lambda i=i: _hexr(data[np.int64(i)])) for i in case["items"] if abs(i) < 2**62]
+            if case.get("np_items") else None}
 
 
 def _open_h5(e):
@@ -369,7 +458,8 @@ def _reopen(e, bio):
 def impl(case):
     e = _env()
     try:
-        return {"c01_indexed": impl_indexed, "c01_plain": impl_plain, "c01_dispatch": impl_dispatch}[case["op"]](e, case)
+        return {"c01_indexed": impl_indexed, "c01_plain": impl_plain, "c01_dispatch": impl_dispatch,
+                "c01_pyslice": impl_pyslice}[case["op"]](e, case)
     finally:
         e["s"].close_dataset("d")
 
@@ -472,6 +562,8 @@ def _encode(np, case, arr):
 
 
 def _enc_item(np, case, x):
+    if isinstance(x, np.ndarray) and x.ndim >= 1:     # MemoryFieldArray on a never-written array: an empty array for ANY item
+        return _encode(np, case, x)
     if case["kind"] == "fixed":                       # a numpy bytes scalar comes back without its trailing NULs
         return int.from_bytes(bytes(x).ljust(case["strlen"], b"\0"), "big")
     return _encode(np, case, x)[0]
@@ -482,7 +574,7 @@ def _plain_reads(e, case, data):
     enc = lambda a: _encode(np, case, a)   # noqa
     whole = data[:]
     return {"data": enc(whole), "len": len(data), "dtype": whole.dtype.name,
-            "slices": [_try(e, lambda a=a, b=b: enc(data[a:b])) for a, b in case["slices"]],
+            "slices": [_try(e, lambda x=x: enc(data[_sl(x)])) for x in case["slices"]],
             "items": [_try(e, lambda i=i: _enc_item(np, case, data[i])) for i in case["items"]]}
 
 
@@ -545,6 +637,13 @@ def impl_plain(e, case):
     return out
 
 
+def impl_pyslice(e, case):
+    """Python's own list indexing: what Spec/PySlice.lean must say"""
+    xs = case["xs"]
+    return {"slices": [_try(e, lambda x=x: xs[_sl(x)]) for x in case["slices"]],
+            "items": [_try(e, lambda i=i: xs[i]) for i in case["items"]]}
+
+
 def impl_dispatch(e, case):
     bio, ds, df = _open_h5(e)
     kind, nf = case["kind"], case["nformat"]
@@ -570,9 +669,11 @@ def impl_dispatch(e, case):
 # ------------------------------------------------------------------------------------------------------------------
 
 def to_model(case):
-    m = {k: v for k, v in case.items() if not k.startswith("_") and k not in ("write", "key_names", "nformat")}
+    m = {k: v for k, v in case.items() if not k.startswith("_") and k not in ("write", "key_names", "nformat", "np_items")}
     if "rewrap" in m:
         m["rewrap"] = bool(m["rewrap"])          # "reopen" is a new writer object on the persisted arrays
+    if os.environ.get("VERIF_C01_READER") == "asFound":
+        m["reader"] = "asFound"                  # validate the as-found reader model against a tree without NC01b / NC01c
     return m
 
 
@@ -590,6 +691,12 @@ def compare(case, io, mo, mode):
         return None if a == b else f"impl err={a} ({io.get('msg', '')}) model err={b}"
     m = mo["ok"]
     op = case["op"]
+    if op == "c01_pyslice":
+        for k in ("slices", "items"):
+            for it, a, b in zip(case[k], io[k], m[k]):
+                if a != b:
+                    return f"Lean spec of Python indexing differs from Python: xs={case['xs']} item={it}: python={a} spec={b}"
+        return None
     if op == "c01_dispatch":
         for k in ("attr", "cls", "created"):
             if io[k] != m[k]:
@@ -607,7 +714,14 @@ def compare(case, io, mo, mode):
                     continue
                 for k in ("all", "slices", "items"):
                     if snap[rd][k] != m[rd][k]:
-                        return f"{where} {rd}.{k}: impl={snap[rd][k]} model={m[rd][k]}"
+                        bad = [(it, a, b) for it, a, b in zip(case.get(k, [None]), snap[rd][k], m[rd][k]) if a != b] \
+                            if k != "all" else [("[:]", snap[rd][k], m[rd][k])]
+                        return f"{where} {rd}.{k}: first of {len(bad)} differing reads: item={bad[0][0]} impl={bad[0][1]} model={bad[0][2]}"
+                small = [x for i, x in zip(case["items"], m[rd]["items"]) if abs(i) < 2**62]
+                if os.environ.get("VERIF_C01_READER") == "asFound":
+                    small = [None] * len(small)      # as found a numpy integer is neither slice nor int: the method returns None
+                if snap[rd].get("items_np") is not None and snap[rd]["items_np"] != small:
+                    return f"{where} {rd}: data[np.int64(i)] = {snap[rd]['items_np']} but data[i] (model) = {small}"
         if io["staged"] != m["staged"]:
             return f"staging fill levels after complete: impl={io['staged']} model={m['staged']}"
         return None
@@ -615,9 +729,10 @@ def compare(case, io, mo, mode):
         if snap is None:
             continue
         for k in ("data", "len", "dtype", "slices", "items", "key_values"):
-            if k == "items" and not case["h5"] and not case["parts"]:
-                continue      # MemoryFieldArray.__getitem__ on a never-written array returns an empty array for ANY item
             if snap[k] != m[k]:
+                if k in ("slices", "items"):
+                    bad = [(it, a, b) for it, a, b in zip(case[k], snap[k], m[k]) if a != b]
+                    return f"{where} {k}: first of {len(bad)} differing reads: item={bad[0][0]} impl={bad[0][1]} model={bad[0][2]}"
                 return f"{where} {k}: impl={snap[k]} model={m[k]}"
     return None
 
@@ -631,23 +746,45 @@ def in_scope(case):
     return not str(case.get("_tag", "")).startswith("malformed")
 
 
+def slice_in_range(x, n):
+    """the property's 'in-range slice': every bound that is given names a position of the rows (-n <= bound <= n), the step
+    is not 0. (Python also accepts bounds beyond the rows and clamps them: compared with the model only.)"""
+    st = x[2] if len(x) > 2 else None
+    return st != 0 and all(b is None or -n <= b <= n for b in x[:2])
+
+
 def _check_reads(rd, flat, case, where):
     n = len(flat)
     if rd["all"] != flat:
         return f"{where} data[:] = {rd['all']} but the written sequence is {flat}"
-    for (a, b), got in zip(case["slices"], rd["slices"]):
-        if a <= b <= n and got != flat[a:b]:
-            return f"{where} data[{a}:{b}] = {got} expected {flat[a:b]}"
+    for x, got in zip(case["slices"], rd["slices"]):
+        if slice_in_range(x, n) and got != flat[_sl(x)]:
+            return f"{where} data[{':'.join('' if b is None else str(b) for b in x)}] = {got} expected {flat[_sl(x)]}"
     for i, got in zip(case["items"], rd["items"]):
-        if i < n and got != flat[i]:
+        if -n <= i < n and got != flat[i]:
             return f"{where} data[{i}] = {got} expected {flat[i]}"
+    for i, got in zip([i for i in case["items"] if abs(i) < 2**62], rd.get("items_np") or []):
+        if -n <= i < n and got != flat[i]:
+            return f"{where} data[np.int64({i})] = {got} expected {flat[i]}"
     return None
+
+
+def _failing_reads(rd, flat, case):
+    """the items of a reader snapshot on which the property's oracle fails"""
+    n = len(flat)
+    bad = [("slice", x) for x, got in zip(case["slices"], rd["slices"]) if slice_in_range(x, n) and got != flat[_sl(x)]]
+    bad += [("int", i) for i, got in zip(case["items"], rd["items"]) if -n <= i < n and got != flat[i]]
+    bad += [("npint", i) for i, got in zip([i for i in case["items"] if abs(i) < 2**62], rd.get("items_np") or [])
+            if -n <= i < n and got != flat[i]]
+    return bad
 
 
 def check_spec(case, io, mode):
     if not in_scope(case):
         return None
     op = case["op"]
+    if op == "c01_pyslice":
+        return None                     # about the Lean spec, not about ExeTera
     if "err" in io:
         return f"raised {io['err']} ({io.get('msg', '')}) instead of storing the sequence"
     if op == "c01_dispatch":
@@ -704,11 +841,43 @@ def check_spec(case, io, mode):
     return None
 
 
+def _nc01b_shape(kind, x):
+    """item shapes the indexed readers mishandled before NC01b: a negative (or numpy) int; a slice with a negative bound, a step
+    other than None / 1, or start > stop"""
+    if kind == "npint":
+        return True
+    if kind == "int":
+        return x < 0
+    st = x[2] if len(x) > 2 else None
+    a, b = x[0], x[1]
+    return st not in (None, 1) or (a is not None and a < 0) or (b is not None and b < 0) or \
+        (a is not None and b is not None and a > b)
+
+
 def match_finding(case, io, mode):
-    """narrow matchers for the defects of DESIGN.md section 4 (only relevant while the fix: patch is not applied)"""
+    """narrow matchers for the defects of DESIGN.md section 4 / 7 (only relevant while the fix: patch is not applied)"""
     op = case["op"]
     if op == "c01_indexed" and not any(case["parts"]) and "err" not in io and io["indices"] == []:
         return "D2"
+    if op == "c01_indexed" and "err" not in io:
+        flat = [s.encode().hex() for p in case["parts"] for s in p]
+        bad = []
+        for snap in (io, io.get("re"), io.get("obs")):
+            for rd in ("w", "ro"):
+                if snap is not None and snap.get(rd) is not None and snap[rd]["all"] == flat:
+                    bad += _failing_reads(snap[rd], flat, case)
+        if bad and all(_nc01b_shape(k, x) for k, x in bad):
+            return "NC01b"
+    if op == "c01_plain" and "err" not in io and case["h5"]:
+        flat = [v for p in case["parts"] for v in p]
+        bad = []
+        for snap in (io, io.get("re"), io.get("obs")):
+            if snap is not None and snap["data"] == flat:
+                bad += _failing_reads({"slices": snap["slices"], "items": snap["items"]}, flat, case)
+        if bad and all(k == "slice" and len(x) > 2 and x[2] is not None and x[2] < 0 for k, x in bad) and all(
+                got == {"err": "value_error"} for snap in (io, io.get("re"), io.get("obs")) if snap is not None
+                for x, got in zip(case["slices"], snap["slices"]) if ("slice", x) in bad):
+            return "NC01c"
     if op == "c01_plain":
         parts = case["parts"]
         if not case["h5"] and io.get("err") == "value_error" and any(
@@ -723,7 +892,9 @@ def match_finding(case, io, mode):
 
 
 def nontrivial(case, mo):
-    if case["op"] == "c01_dispatch":
+    if case["op"] in ("c01_dispatch", "c01_pyslice"):
+        return True
+    if str(case.get("_tag", "")) == "readers":
         return True
     parts = case["parts"]
     if len(parts) >= 2 or any(len(p) == 0 for p in parts) or "rounds" in case:
@@ -738,10 +909,28 @@ def nontrivial(case, mo):
 def classify(case, mo):
     op = case["op"]
     tags = [op + (":h5" if case.get("h5") else ":mem" if "h5" in case else "")]
-    if op == "c01_dispatch":
+    if op in ("c01_dispatch", "c01_pyslice"):
         return tags
     parts = case["parts"]
     flat = [s for p in parts for s in p]
+    n = len(flat)
+    if str(case.get("_tag", "")) == "readers":
+        tags.append("readers-exhaustive")
+    for x in case["slices"]:
+        st = x[2] if len(x) > 2 else None
+        if st is not None and st < 0:
+            tags.append("read:negative-step")
+        elif st not in (None, 1):
+            tags.append("read:step" if st else "read:step-0")
+        if any(b is not None and b < 0 for b in x[:2]):
+            tags.append("read:negative-bound")
+        if any(b is None for b in x[:2]):
+            tags.append("read:None-bound")
+        if slice_in_range(x, n) and len(range(*_sl(x).indices(n))) == 0:
+            tags.append("read:empty-result")
+    if any(i < 0 for i in case["items"]):
+        tags.append("read:negative-index")
+    tags = sorted(set(tags), key=tags.index)
     if not flat:
         tags.append("empty-sequence")
     if any(len(p) == 0 for p in parts):
